@@ -419,11 +419,11 @@ META = dict(
                 'operations from {emit, call answered, one / two events arrive, receive, receive that times out, the server '
                 'ends the namespace, disconnect()}, checked against a reference model (buffered events first and in order, '
                 'then TimeoutError while connected and DisconnectedError once the connection has ended for good).',
-    bounds={'quick': 'nine scenarios (call during a temporary loss; two arrivals || two receives; a greeting dispatched while connect() is still running; burst of three; loss and reconnection between arrivals; '
+    bounds={'quick': 'ten scenarios (receive() without a timeout while / before the connection ends for good; call during a temporary loss; two arrivals || two receives; a greeting dispatched while connect() is still running; burst of three; loss and reconnection between arrivals; '
                      'final disconnect; emit during a temporary loss; emit after the end; receive during a loss); all '
                      'schedules at the granularity of event/buffer operations (decision bound 80)',
             'thorough': 'decision bound 120'},
-    outside=['liveness: a receive() without timeout that is already blocked when the connection ends for good',
+    outside=['liveness other than: a receive() without timeout returns or raises once the connection has ended for good',
              'CPython-level pre-emption inside list/event operations'],
     stubs=['the underlying Client -> a fake capturing the handlers the real connect() registers', 'threading.Event -> '
            'instrumented event', 'input_buffer -> instrumented list', 'asyncio -> vf.miniloop'],
